@@ -113,5 +113,10 @@ example :
     (match specRun {} World.new ops with | .ok _ => true | .error _ => false) = true := by
   decide +kernel
 
+/-- the oracle's comparison of dropped values is order-insensitive: lists that are permutations of each
+other are accepted as the same multiset (used wherever the order of drops is an implementation detail) -/
+theorem sameComps_accepts_perm (a b : List Comp) (h : a.Perm b) : sameComps a b = true :=
+  sameComps_of_perm a b h
+
 end Spec
 end Hecs
